@@ -108,7 +108,13 @@ func (vector *Vector) InnerProduct(other Vector) (res {{.ElementName}}) {
 		innerProductVecGeneric(&res, *vector, other)
 		return
 	}
-	innerProdVec(&res[0], &(*vector)[0], &other[0], uint64(len(*vector)))
+	// the kernel reads the 32-bit limbs of its first operand with 64-bit broadcast loads, i.e. 4 bytes past
+	// the element it is given: keep the last element out of it so that it never reads past the end of the vector
+	last := n - 1
+	innerProdVec(&res[0], &(*vector)[0], &other[0], last)
+	var t {{.ElementName}}
+	t.Mul(&(*vector)[last], &other[last])
+	res.Add(&res, &t)
 
 	return
 }
